@@ -167,7 +167,7 @@ class Family:
             self.out.cov['traces_validated_against_impl'] += summ.get('pairs', 0) * 2
             self.validate(tr, 'model history served long-lived and persisted (%s)' % prog,
                           lambda ev: dict(program=pj, history=hists[int(ev['sid'].rsplit('.h', 1)[1])],
-                                          pair=dict(kind=ev.get('kind', 'mode'), store=ev.get('store'),
+                                          pair=dict(kind=ev.get('kind', 'mode'), store=ev.get('store'), loop=loop_params(ev) if ev.get('kind') == 'loop' else None,
                                                     partner=hists[int(ev['partner'].rsplit('.h', 1)[1])] if ev.get('partner') else None)))
 
     def examples(self, nsess, maxreq, mode='LP'):
@@ -211,7 +211,7 @@ class Family:
             base = sid.split('.s')[0]
             if ev.get('ev') == 'pair':
                 return dict(program=progs[base], pair=dict(kind=ev['kind'], inputs=[dec(x) for x in ev['inputs']], extra=[dec(x) for x in ev['extra']],
-                                                           store=ev['store']), history=dict(inputs=[dec(x) for x in ev['inputs']], picks=[], mode='L'))
+                                                           store=ev['store'], loop=loop_params(ev) if ev['kind'] == 'loop' else None), history=dict(inputs=[dec(x) for x in ev['inputs']], picks=[], mode='L'))
             return dict(program=progs[base], history=dict(inputs=[], picks=[], mode='L'), note='event inside a paired run; see sid')
         self.validate(tr, 'paired runs (long-lived vs persisted, with vs without refused inputs)', case_of)
 
@@ -345,12 +345,33 @@ def slim(ev):
     return ev
 
 
+def loop_params(ev):
+    """what vise-loop-case needs to serve a recorded "loop" line again"""
+    return dict(inputs=ev['inputs'], store=ev['store'], lastnl=ev['lastnl'], nfeed=ev['nfeed'], persist=ev['persist'], pseed=ev.get('pseed', ''), picks=ev.get('picks', []))
+
+
+LOOP_INVS = ('C07_LoopInputs', 'C07_LoopRefines', 'C07_LoopResume', 'C08_LoopNoPanic')
+
+
 def replay_case(pid, path, trace_invs):
     case = json.load(open(path))
     d = core.scratch('verif-rp-')
     pp = os.path.join(d, 'prog.json')
     json.dump(case['program'], open(pp, 'w'))
     pair = case.get('pair') or {}
+    if pair.get('kind') == 'loop' and pair.get('loop'):
+        cp = os.path.join(d, 'loopcase.json')
+        json.dump(pair['loop'], open(cp, 'w'))
+        tr = os.path.join(d, 'loop.ndjson')
+        core.run_harness(['vise-loop-case', pp, cp, tr])
+        w = core.spec_copy({'vt.cfg': trace_cfg([i for i in trace_invs if i in LOOP_INVS])})
+        viol, _ = core.validate_trace('ViseTrace', 'vt.cfg', tr, workdir=w)
+        if viol:
+            log('VIOLATION property=%s replay=%s' % (pid, path))
+            log('  %s: %s' % (viol[0][0], json.dumps(slim(viol[0][2]))[:500]))
+            return 1
+        log('replay: property holds on this case')
+        return 0
     if pair.get('kind') in ('mode', 'reuse') and 'picks' in case.get('history', {}) and (pair['kind'] == 'mode' or pair.get('partner')):
         # two-run comparisons are replayed as such: both modes of the history, and (reuse) both sessions through one kept persister
         hp = os.path.join(d, 'hists.ndjson')
